@@ -1,1 +1,36 @@
-// placeholder
+//! bourse::verif — support shared by the harnesses of the PyO3 crate (cfg(kani) only: the extension
+//! module cannot be linked into a native replay binary; C18/C19 counterexamples are replayed
+//! through the compiled extension under CPython instead).
+#![allow(dead_code)]
+#![cfg(kani)]
+use numpy::{Element, Ix1, PyArray};
+use pyo3::Python;
+
+/// what the last `PyArray::from_slice` call was given (u32 arrays only)
+pub static mut ARR: [u32; 64] = [0; 64];
+pub static mut ARR_LEN: usize = 0;
+pub static mut ARR_CALLS: usize = 0;
+/// backing storage of the opaque handle (never read through the handle)
+pub static mut HANDLE: [u64; 16] = [0; 16];
+
+/// stand-in for `numpy::PyArray::<T, Ix1>::from_slice` (numpy C-API allocation): records the slice
+/// it is given and returns an opaque handle that is never dereferenced
+pub fn stub_from_slice<'py, T: Element>(_py: Python<'py>, slice: &[T]) -> &'py PyArray<T, Ix1> {
+    unsafe {
+        ARR_CALLS += 1;
+        ARR_LEN = slice.len();
+        if core::mem::size_of::<T>() == 4 {
+            let mut i = 0;
+            while i < slice.len() && i < 64 {
+                ARR[i] = core::mem::transmute_copy::<T, u32>(&slice[i]);
+                i += 1;
+            }
+        }
+        &*(core::ptr::addr_of!(HANDLE) as *const PyArray<T, Ix1>)
+    }
+}
+
+/// the array handed to numpy by the call under test
+pub fn recorded() -> ([u32; 64], usize, usize) {
+    unsafe { (ARR, ARR_LEN, ARR_CALLS) }
+}
